@@ -14,10 +14,41 @@ use crate::{
 
 pub struct C18;
 
-#[derive(Clone, Debug, PartialEq, Eq, Hash)]
+#[derive(Clone, Debug, PartialEq, Eq)]
 pub struct Vs {
     pub label: String,
     pub members: Vec<u32>,
+}
+/// A legal but coarse `Hash` (equal values hash equally; many different values collide): whatever
+/// the pool keys by version set has to fall back on `Eq`.
+impl std::hash::Hash for Vs {
+    fn hash<H: std::hash::Hasher>(&self, state: &mut H) {
+        (self.members.len() as u32).hash(state);
+    }
+}
+
+/// Package name types the histories are run with.
+pub trait NameLike: Clone + Eq + std::hash::Hash + std::fmt::Debug {
+    fn make(s: String) -> Self;
+}
+impl NameLike for String {
+    fn make(s: String) -> Self {
+        s
+    }
+}
+/// A name whose `Hash` is coarser than its `Eq` (e.g. a name-with-feature type hashing the base
+/// name only): equal hashes for many different names.
+#[derive(Clone, Debug, PartialEq, Eq)]
+pub struct CoarseName(pub String);
+impl std::hash::Hash for CoarseName {
+    fn hash<H: std::hash::Hasher>(&self, state: &mut H) {
+        (self.0.len() % 5).hash(state);
+    }
+}
+impl NameLike for CoarseName {
+    fn make(s: String) -> Self {
+        CoarseName(s)
+    }
 }
 #[derive(Clone, Debug, PartialEq, Eq)]
 pub struct Rec(pub u32, pub String);
@@ -139,7 +170,12 @@ impl Monitor for C18 {
         ctx.rep.evaluations += 1;
         let mut vio: Vec<(String, String)> = vec![];
         let mut stats = (0u64, 0u64, [0usize; 5]);
-        let r = catch(|| run_history(c, &mut vio, &mut stats));
+        // a third of the histories use a package name type whose Hash is coarser than its Eq
+        let coarse = h % 3 == 0;
+        if coarse {
+            ctx.rep.count("histories-with-a-name-type-whose-hash-collides");
+        }
+        let r = catch(|| if coarse { run_history::<CoarseName>(c, &mut vio, &mut stats) } else { run_history::<String>(c, &mut vio, &mut stats) });
         match r {
             Caught::Ok(()) => {}
             Caught::Panic(pi) => ctx.violation(format!("panic in pool operation: {}", pi.signature()), String::new()),
@@ -160,20 +196,37 @@ impl Monitor for C18 {
     }
 }
 
-fn run_history(c: &C18Case, vio: &mut Vec<(String, String)>, stats: &mut (u64, u64, [usize; 5])) {
-    let pool: Pool<Vs, String> = Pool::new();
+/// Names interned as a side effect of other operations obey the same rules as `Op::Name`.
+fn check_name<N: NameLike>(m: &mut HashMap<N, NameId>, s: N, id: NameId, bad: &mut impl FnMut(&str, String)) {
+    match m.get(&s) {
+        Some(&prev) => {
+            if prev != id {
+                bad("same package name interned twice got different ids", format!("{s:?}: {} then {}", prev.0, id.0));
+            }
+        }
+        None => {
+            if let Some((o, _)) = m.iter().find(|(_, v)| **v == id) {
+                bad("different package names share an id", format!("{s:?} and {o:?} -> {}", id.0));
+            }
+            m.insert(s, id);
+        }
+    }
+}
+
+fn run_history<N: NameLike>(c: &C18Case, vio: &mut Vec<(String, String)>, stats: &mut (u64, u64, [usize; 5])) {
+    let pool: Pool<Vs, N> = Pool::new();
     // model
     let mut m_str: HashMap<String, StringId> = HashMap::new();
-    let mut m_name: HashMap<String, NameId> = HashMap::new();
+    let mut m_name: HashMap<N, NameId> = HashMap::new();
     let mut m_vs: HashMap<(NameId, Vs), VersionSetId> = HashMap::new();
     let mut vs_list: Vec<VersionSetId> = vec![];
     let mut n_solv = 0u32;
     let mut n_union = 0u32;
     // held references with their expected contents
     let mut r_str: Vec<(&str, String)> = vec![];
-    let mut r_name: Vec<(&String, String)> = vec![];
+    let mut r_name: Vec<(&N, N)> = vec![];
     let mut r_vs: Vec<(&Vs, Vs)> = vec![];
-    let mut r_solv: Vec<(&resolvo::utils::Pool<Vs, String>, SolvableId, NameId, Rec)> = vec![];
+    let mut r_solv: Vec<(&resolvo::utils::Pool<Vs, N>, SolvableId, NameId, Rec)> = vec![];
     let mut r_solv_ref: Vec<(&Rec, Rec)> = vec![];
     let mut bad = |k: &str, d: String| {
         if vio.len() < 20 {
@@ -233,7 +286,7 @@ fn run_history(c: &C18Case, vio: &mut Vec<(String, String)>, stats: &mut (u64, u
                 r_str.push((r, s));
             }
             Op::Name(k) => {
-                let s = name_of(*k);
+                let s = N::make(name_of(*k));
                 let id = pool.intern_package_name(s.clone());
                 match m_name.get(&s) {
                     Some(&prev) => {
@@ -255,15 +308,15 @@ fn run_history(c: &C18Case, vio: &mut Vec<(String, String)>, stats: &mut (u64, u
                 r_name.push((r, s));
             }
             Op::LookupName(k) => {
-                let s = name_of(*k);
+                let s = N::make(name_of(*k));
                 let got = pool.lookup_package_name(&s);
                 if got != m_name.get(&s).copied() {
                     bad("lookup_package_name disagrees with what was interned", format!("{s:?}: {:?} vs {:?}", got.map(|n| n.0), m_name.get(&s).map(|n| n.0)));
                 }
             }
             Op::Vs(nk, vk) => {
-                let name = pool.intern_package_name(name_of(*nk));
-                m_name.entry(name_of(*nk)).or_insert(name);
+                let name = pool.intern_package_name(N::make(name_of(*nk)));
+                check_name(&mut m_name, N::make(name_of(*nk)), name, &mut bad);
                 let vs = vs_of(*vk);
                 let id = pool.intern_version_set(name, vs.clone());
                 match m_vs.get(&(name, vs.clone())) {
@@ -287,8 +340,8 @@ fn run_history(c: &C18Case, vio: &mut Vec<(String, String)>, stats: &mut (u64, u
                 r_vs.push((r, vs));
             }
             Op::Solvable(nk, rec) => {
-                let name = pool.intern_package_name(name_of(*nk));
-                m_name.entry(name_of(*nk)).or_insert(name);
+                let name = pool.intern_package_name(N::make(name_of(*nk)));
+                check_name(&mut m_name, N::make(name_of(*nk)), name, &mut bad);
                 let record = Rec(*rec, format!("record-{rec}-{}", "r".repeat((*rec % 29) as usize)));
                 let id = pool.intern_solvable(name, record.clone());
                 if id.0 != n_solv {
@@ -307,7 +360,22 @@ fn run_history(c: &C18Case, vio: &mut Vec<(String, String)>, stats: &mut (u64, u
                     continue;
                 }
                 let members: Vec<VersionSetId> = idx.iter().map(|&i| vs_list[i as usize % vs_list.len()]).collect();
-                let id: VersionSetUnionId = pool.intern_version_set_union(members[0], members[1..].iter().copied());
+                // the remaining members arrive through iterators with different size hints
+                let rest: Vec<VersionSetId> = members[1..].to_vec();
+                let id: VersionSetUnionId = match (idx.iter().sum::<u32>() as usize + i) % 4 {
+                    0 => pool.intern_version_set_union(members[0], rest.iter().copied()),
+                    1 => {
+                        // (0, None)
+                        let mut it = rest.clone().into_iter();
+                        pool.intern_version_set_union(members[0], std::iter::from_fn(move || it.next()))
+                    }
+                    2 => {
+                        // flattened groups: (0, None) as well
+                        let groups: Vec<Vec<VersionSetId>> = rest.chunks(2).map(|c| c.to_vec()).collect();
+                        pool.intern_version_set_union(members[0], groups.into_iter().flat_map(|g| g.into_iter()))
+                    }
+                    _ => pool.intern_version_set_union(members[0], rest.iter().copied().filter(|_| true)), // (0, Some(n))
+                };
                 if id.0 != n_union {
                     bad("union ids are not dense / unique", format!("expected {} got {}", n_union, id.0));
                 }
